@@ -106,8 +106,10 @@ def make_rewriter(name):
     return getattr(MT, name)()
 
 
-def run_pipeline(kind, calls, k, rewriter_name, flag):
-    """calls: list of (argument value, result value).  Returns (rows, stub_text or None, stderr)."""
+def run_pipeline(kind, calls, k, rewriter_name, flag, flush_after=()):
+    """calls: list of (argument value, result value); the logger is flushed (one batch per flush)
+    after the calls whose index is in flush_after and at the end.
+    Returns (rows, stub_text or None, stderr)."""
     func = KIND_FUNC[kind]
     code = func.__code__
     conn = sqlite3.connect(":memory:")
@@ -116,7 +118,9 @@ def run_pipeline(kind, calls, k, rewriter_name, flag):
     logger = CallTraceStoreLogger(store)
     tracer = CallTracer(logger, k, None, None)
     ret_off = _offset(code, ("RETURN_VALUE", "RETURN_CONST"))
-    for arg, res in calls:
+    for call_index, (arg, res) in enumerate(calls):
+        if call_index in flush_after:
+            logger.flush()
         names = code.co_varnames[: code.co_argcount + code.co_kwonlyargcount]
         locs = {}
         for i, n in enumerate(names):
@@ -270,6 +274,43 @@ def c06_body(t, k, g=G_PIPE, n_calls=2, full=False):
     return check(True)
 
 
+def two_funcs_body(t, k):
+    """C06 at the module-stub level: two functions whose same-named parameter saw differently shaped
+    str-keyed dicts; every generated class must still respect the limit."""
+    from monkeytype.stubs import build_module_stubs_from_traces
+    from monkeytype.tracing import CallTrace
+    from monkeytype.typing import get_type
+
+    ASSUME(k >= 0)
+    keys = ("a", "b", "c", "d")
+    dicts = []
+    for _ in range(2):
+        d = {}
+        for key in keys:
+            if t.take(2) == 1 and len(d) < 2:
+                d[key] = 1
+        dicts.append(d)
+    rw = make_rewriter(("NoOpRewriter", "DEFAULT_REWRITER")[t.take(2)])
+    traces = [CallTrace(F.mod_func, {"a": get_type(dicts[0], k)}, None), CallTrace(F.Klass.method, {"a": get_type(dicts[1], k)}, None)]
+    if t.take(2) == 1:
+        traces.reverse()
+    text = build_module_stubs_from_traces(traces, k, S.IGNORE, rw)[M].render()
+    try:
+        info = parse_stub(text, M, lenient_names=True)
+    except StubError as e:
+        return check(False, lambda: f"{e}\n{text}")
+    if k == 0 and (info.td_classes or "TypedDict" in text):
+        return check(False, lambda: f"TypedDict classes in the stub although the limit is 0:\n{text}")
+    for name in info.td_classes:
+        r, o = O.td_fields(info.td_type(name))
+        if len(r) + len(o) > k or len(r) + len(o) == 0:
+            return check(False, lambda: f"dicts {dicts} k={int(k)}: generated class {name} has {len(r) + len(o)} fields\n--- stub ---\n{text}")
+    return check(True)
+
+
+tape_harness("c06_two_funcs", [("t", 10)], {"k": "int"}, two_funcs_body, globals())
+
+
 def _nested_dicts(values):
     """Every exact-dict instance observed anywhere inside the values (containers are descended)."""
     out = []
@@ -327,6 +368,9 @@ for _n, (_b, _g, _calls, _full) in _CFG.items():
 def shards(name, prefix=5):
     from engine.verdicts import enumerate_prefixes
 
+    if name == "c06_two_funcs":
+        return [{f"t{j}": v for j, v in enumerate(p)} for p in enumerate_prefixes(lambda t: two_funcs_body(t, 2), prefix)]
+
     _b, g, n, full = _CFG[name]
     pres = enumerate_prefixes(lambda t: decode_case(t, g, n, full), prefix)
     return [{f"t{j}": v for j, v in enumerate(p)} for p in pres]
@@ -334,6 +378,9 @@ def shards(name, prefix=5):
 
 def describe(name, args):
     from engine.verdicts import Tape
+
+    if name == "c06_two_funcs":
+        return dict(args)
 
     _b, g, n, full = _CFG[name]
     ks = sorted((k for k in args if k[0] == "t" and k[1:].isdigit()), key=lambda s: int(s[1:]))
